@@ -341,6 +341,8 @@ def accessor_agreement(repo, rep):
 
 
 def run(repo, rep, tier):
+    from .round7b import hygiene
+    hygiene(repo, rep, "C06", ('wavespectra.specarray', 'wavespectra.core.xrstats', 'wavespectra.core.fitting'), falsy=True)
     rep.rule("R-C06-14", "(shared with C02) no statistic drops coordinates depending on the data of ALL spectra (dropna / where(drop=True)): which bins exist "
                          "for one spectrum would depend on the others")
     from .round7 import no_data_dependent_shape
